@@ -41,7 +41,7 @@ TIERS = {
     "thorough": {"cases": 80000, "batch": 500, "case_timeout": 120},
 }
 MIN_EVALS = {"quick": {"queue_sequence": 3000, "queue_callback_once": 1500, "no_enter_during_wait": 3000,
-                       "relay_fold": 800, "boolean_stop": 300, "mode_queue_complete": 300, "relay_player_complete": 1000}}
+                       "relay_fold": 800, "boolean_stop": 300, "mode_queue_complete": 300, "relay_player_complete": 1000, "ball_ending_after_nested_stops": 150}}
 SHRINK_KEYS = ["posts", "handlers", "ops"]
 
 EVENTS = ["q0", "q1", "q2"]
@@ -108,7 +108,23 @@ def _gen_players(rng, tier):
     return {"kind": "players", "relays": relays, "ops": ops}
 
 
+def _gen_ballend(rng, tier):
+    """Game modes that end with the ball; their own stop may already be in flight when ball_ending is dispatched."""
+    modes = []
+    for i in range(rng.randint(1, 3)):
+        modes.append({"name": "g%d" % i,
+                      "stop": rng.choice(["none", "ball_ending", "ball_ending", "custom_before", "custom_before",
+                                          "ball_ending_prio"]),
+                      "auto_stop": True,
+                      "priority": rng.choice([100, 150, 200, 300]),
+                      "hold": rng.choice([None, 0.0, 0.1, 0.5, 2.0, 5.0, 5.0]),
+                      "pre": rng.choice([0.0, 0.0, 0.05, 0.1, 1.0])})
+    return {"kind": "ballend", "modes": modes, "balls": rng.randint(1, 2), "players": rng.randint(1, 2)}
+
+
 def gen_case(rng, tier, index):
+    if index % 16 == 7:
+        return _gen_ballend(rng, tier)
     k = index % 4
     if k == 0:
         return _gen_queue(rng, tier)
@@ -126,7 +142,110 @@ def run_case(case):
         return _run_relay(case)
     if case["kind"] == "players":
         return _run_players(case)
+    if case["kind"] == "ballend":
+        return _run_ballend(case)
     return _run_modes(case)
+
+
+def _run_ballend(case):
+    """ball_ending is a queue event; the mode controller's handler holds it until every game mode that ends with the
+    ball has stopped, and each such stop is itself a queue event (mode_<m>_stopping) whose handlers may wait.  Oracle at
+    the event boundary: when ball_ended (the completion of ball_ending) is posted, no wait that one of OUR handlers of a
+    nested mode_<m>_stopping registered may be outstanding, for modes with stop_on_ball_end (the default)."""
+    from vlib.boot import VMachine, MpfCrash
+    clauses = {"ball_ending_after_nested_stops": 0, "queue_progress": 0}
+    obs = {"ballend_cases": 1, "ballend_ball_ends": 0, "ballend_mode_already_stopping_at_ball_ending": 0,
+           "ballend_holds_outstanding_during_ball_ending": 0}
+    viol = []
+
+    def V(clause, sig, **d):
+        if len(viol) < 10:
+            viol.append({"clause": clause, "sig": "C02:" + sig, "detail": d})
+
+    cfg = {"modes": [md["name"] for md in case["modes"]]}
+    modes = {}
+    for md in case["modes"]:
+        stop = {"none": "never_%s" % md["name"], "ball_ending": "ball_ending, halt_%s" % md["name"],
+                "ball_ending_prio": "ball_ending.5, halt_%s" % md["name"],
+                "custom_before": "halt_%s" % md["name"]}[md["stop"]]
+        modes[md["name"]] = {"mode": {"start_events": "ball_started", "stop_events": stop,
+                                      "priority": md["priority"]}}
+    try:
+        with VMachine(cfg, modes=modes, kind="fake") as vm:
+            m = vm.machine
+            ev = m.events
+            holds = {}      # mode name -> list of [queue, cleared]
+            st = {"in_ball_ending": False}
+
+            for md in case["modes"]:
+                if md["hold"] is None:
+                    continue
+
+                def holder(queue, _n=md["name"], _d=md["hold"], **kwargs):
+                    queue.wait()
+                    rec = [queue, False]
+                    holds.setdefault(_n, []).append(rec)
+                    if st["in_ball_ending"]:
+                        obs["ballend_holds_outstanding_during_ball_ending"] += 1
+
+                    def rel():
+                        rec[1] = True
+                        queue.clear()
+                    vm.loop.call_later(_d, rel)
+                ev.add_handler("mode_%s_stopping" % md["name"], holder, priority=1)
+
+            def on_ball_ending(**kwargs):
+                st["in_ball_ending"] = True
+                for md in case["modes"]:
+                    if m.modes[md["name"]].stopping:
+                        obs["ballend_mode_already_stopping_at_ball_ending"] += 1
+            ev.add_handler("ball_ending", on_ball_ending, priority=100000)
+
+            def on_ball_ended(**kwargs):
+                st["in_ball_ending"] = False
+                obs["ballend_ball_ends"] += 1
+                for md in case["modes"]:
+                    if not md["auto_stop"]:
+                        continue
+                    clauses["ball_ending_after_nested_stops"] += 1
+                    out = [1 for rec in holds.get(md["name"], []) if not rec[1]]
+                    if out:
+                        V("ball_ending_after_nested_stops",
+                          "ball_ending_completed_while_wait_in_nested_mode_stopping_outstanding", mode=md["name"],
+                          stop=md["stop"], mode_active=m.modes[md["name"]].active,
+                          mode_stopping=m.modes[md["name"]].stopping)
+            ev.add_handler("ball_ended", on_ball_ended, priority=100000)
+
+            vm.t.start_game()
+            for _ in range(case["players"] - 1):
+                vm.t.add_player()
+            vm.advance(1.0)
+            for _ in range(case["balls"] * case["players"]):
+                if m.game is None or m.game.balls_in_play < 1:
+                    break
+                vm.advance(1.0)
+                pre = 0.0
+                for md in case["modes"]:
+                    if md["stop"] == "custom_before" and m.modes[md["name"]].active:
+                        ev.post("halt_%s" % md["name"])
+                        pre = max(pre, md["pre"])
+                if pre:
+                    vm.advance(pre)
+                before = obs["ballend_ball_ends"]
+                vm.t.drain_all_balls()
+                vm.advance(12.0)
+                clauses["queue_progress"] += 1
+                if obs["ballend_ball_ends"] != before + 1:
+                    V("queue_progress", "ball_ending_not_completed_once_within_horizon",
+                      ball_ended_posts=obs["ballend_ball_ends"] - before)
+                    break
+    except MpfCrash as e:
+        V("queue_progress", "crash_in_ball_ending_workload", exc=repr(e)[:400])
+    shape = "B" + "|".join("%s%s%s" % (md["stop"][:4], "A" if md["auto_stop"] else "a",
+                                       "n" if md["hold"] is None else ("h" if md["hold"] >= 2 else "q"))
+                           for md in case["modes"]) + "p%db%d" % (case["players"], case["balls"])
+    return {"violations": viol, "clauses": clauses, "shape": shape,
+            "nontrivial": obs["ballend_ball_ends"] > 0 and clauses["ball_ending_after_nested_stops"] > 0, "obs": obs}
 
 
 def _run_players(case):
